@@ -31,6 +31,12 @@ class MultiEngine(enginemod.Engine):
                     out.append(a)
         return out
 
+    def irrelevant_probes(self, prop):
+        out = set()
+        for _w, eng in self.parts:
+            out |= set(eng.irrelevant_probes(prop))
+        return out
+
     def quick_runs(self, prop):
         return self.parts[0][1].quick_runs(prop)
 
